@@ -1862,9 +1862,26 @@ def _(E, c):
 
 
 @model('Box::new_uninit', 'Box::new_uninit_slice', 'exchange_malloc', 'alloc::exchange_malloc', 'box_new_uninit',
-       're:^box_assume_init_into_vec_unsafe$', 're:^boxed::box_new_uninit$')
+       're:^boxed::box_new_uninit$')
 def _(E, c):
     return StructV('Box', {0: RefV(Cell(UNINIT, 'boxalloc'), (), True)})
+
+
+def _unwrap_uninit(v):
+    # MaybeUninit<T> { value: ManuallyDrop<MaybeDangling<T>> } written field-wise into a fresh allocation
+    while isinstance(v, StructV) and v.ty is None and len(v.fields) == 1:
+        v = list(v.fields.values())[0]
+    return v
+
+
+@model('boxed::box_assume_init_into_vec_unsafe', 'box_assume_init_into_vec_unsafe')
+def _(E, c):
+    b = E.deref(c.args[0])
+    inner = E.deref(b.fields[0]) if isinstance(b, StructV) else b
+    v = _unwrap_uninit(inner)
+    if not isinstance(v, VecV):
+        raise Inconclusive('vec! lowering: unexpected box content %r' % (v,))
+    return VecV(v.items, c.dest_ty)
 
 
 @model('Box::assume_init', 're:^<Box as .*>::assume_init$', 'Box::write', 'MaybeUninit::write', 'write_box_via_move',
